@@ -78,6 +78,28 @@ def outcome(f):
     return 3, None, e
 
 
+def outcome_in_child(f):
+  """outcome of a call that may take the interpreter down with it (e.g. a non-integer size handed to compiled code): run in a
+  forked child; returns (class, None, description) with class 4 = the process died (signal / abnormal exit), 5 = no answer in 5 min"""
+  import multiprocessing as mp
+  m = mp.get_context('fork')
+  rd, wr = m.Pipe(False)
+
+  def target():
+    oc, _, ex = outcome(f)
+    wr.send((oc, None if ex is None else '%s: %s' % (type(ex).__name__, str(ex)[:150])))
+  p = m.Process(target=target)
+  p.start()
+  p.join(300)
+  if p.exitcode is None:
+    p.kill()
+    return 5, None, 'no answer within 300 s'
+  if p.exitcode != 0 or not rd.poll(1):
+    return 4, None, 'the interpreter died (exit status %s: signal %s)' % (p.exitcode, -p.exitcode if p.exitcode < 0 else '-')
+  oc, desc = rd.recv()
+  return oc, None, desc
+
+
 def validator_lane(ctx, thorough):
   """the model of check_input against metric_learn._util.check_input on the descriptor grammar"""
   from metric_learn._util import check_input
@@ -406,12 +428,17 @@ def estimator_lane(ctx, thorough):
       for nc in (0, -1, d + 1, 0.5, 0.999, d + 0.5, np.float64(0.25)):
         kw2 = dict(kw)
         kw2['n_components'] = nc
-        oc, r, ex = outcome(lambda: fits.fit(name, kw2, data))
+        if isinstance(nc, (int, np.integer)):
+          oc, r, ex = outcome(lambda: fits.fit(name, kw2, data))
+        else:
+          oc, r, ex = outcome_in_child(lambda: fits.fit(name, kw2, data))     # a fractional size may crash compiled code
         ctx.count('estimator_methods', 1)
-        if oc != 1:
+        if oc == 4:
+          ctx.fail_input('outcome_class', 'n_components=%s: %s' % (nc, ex), dict(estimator=name, n_components=float(nc), d=d), observed=ex)
+        elif oc != 1:
           ctx.fail_input('outcome_class', 'n_components=%s: %s' % (nc if nc <= 1 else 'd+%s' % (nc - d),
-                                                                 'returned' if oc == 0 else 'raises ' + type(ex).__name__),
-                         dict(estimator=name, n_components=nc, d=d), observed=None if ex is None else str(ex)[:150])
+                                                                 'returned' if oc == 0 else 'raises ' + (ex.split(':')[0] if isinstance(ex, str) else type(ex).__name__)),
+                         dict(estimator=name, n_components=float(nc) if not isinstance(nc, (int, np.integer)) else int(nc), d=d), observed=None if ex is None else str(ex)[:150])
 
 
 def knn_ambiguous(X, y, kg, ki):
@@ -502,7 +529,7 @@ def run(ctx):
   ctx.trusted = ["text pins tools/translate_pins.py (check_input family)", "Coq 8.16.1 kernel + vm_compute", "hand-written model Model/Validate.v tied to the code by the enumeration",
                  "oracle model of scikit-learn check_array/check_X_y (sk_bad, y_bad), validated on the same grammar",
                  "translator tools/translate_query.py for the per-method validation table"]
-  ok = ctx.build_property(gen_needed=['Src_query'])
+  ok = ctx.build_property(gen_needed=['Src_query', 'Src_psd'])
   terms, recs = validator_lane(ctx, thorough)
   if ok:
     res = ctx.run_cases('c06', HEADER, terms, per_file=800)
